@@ -34,8 +34,6 @@ def model_params(algo, prm, R, rewards, K_=2, emit=0, RU=2):
         raise C.Machinery("model parameters unrepresentable: %s %s" % (algo, prm))
     P = {"kind": "kary", "K": K_, "D": 1, "metric": "rank", "algo": algo, "rewards": rewards, "R": R, "emit": emit, "tauy": [[0]]}
     P.update({k: v for k, v in t.items() if k != "amb"})
-    if algo == "VHCT":
-        P["tauy"] = vhct_tauy(prm, t["S"])
     return P
 
 
@@ -116,7 +114,7 @@ def replay_cfgs(chk, tier, base_id):
             p2 = dict(prm)
             n = p2.pop("rounds", 64)
             cfgs.append({"id": i, "algo": IMPL[algo], "kind": "bin", "K": 2, "D": 1, "box": [[0.0, 1.0]], "n": n, "T": len(key), "prm": p2, "rewards": list(key), "RU": 2, "seed": 1,
-                         "tabs": {k: v for k, v in P.items() if k in ("S", "RU", "nurho", "w2", "dbound", "c2l", "tau", "c2ls", "b3", "vmin", "nb")}})
+                         "tabs": {k: v for k, v in P.items() if k in ("S", "RU", "nurho", "w2", "dbound", "c2l", "tau", "c2ls", "b3", "vmin", "nb", "tauy", "sexp")}})
             expected[i] = bset
     return cfgs, expected
 
@@ -138,7 +136,7 @@ def observed_behaviour(tr):
 
 
 def draw_prm(rnd, algo):
-    p = {"nu": rnd.choice([1, 1, round(rnd.uniform(0.2, 4), 3)]), "rho": rnd.choice([0.5, round(rnd.uniform(0.3, 0.8), 3)])}
+    p = {"nu": rnd.choice([1, 1, round(rnd.uniform(0.2, 4), 3), round(rnd.uniform(0.02, 0.2), 3)]), "rho": rnd.choice([0.5, 0.5, 0.25, round(rnd.uniform(0.3, 0.8), 3)])}
     if algo in ("HCT", "VHCT"):
         p["c"] = rnd.choice([0.1, round(math.exp(rnd.uniform(math.log(0.03), math.log(0.6))), 4)])
         p["delta"] = rnd.choice([0.01, round(math.exp(rnd.uniform(math.log(0.001), math.log(0.3))), 5)])
@@ -157,7 +155,7 @@ def random_cfgs(tier, base_id, algos=("T_HOO", "HCT", "VHCT"), queries=False, se
             kind, Kk = rnd.choice(A.PART_KINDS)
             D = rnd.choice([1, 1, 2]) if kind != "dbin" else rnd.choice([1, 2])
             box = rnd.choice([b for b in PC.BOXES if len(b) == D])
-            n = rnd.choice([64, 100, 128, 200]) if tier == "quick" else rnd.choice([64, 100, 128, 256, 400, 512])
+            n = rnd.choice([64, 100, 128, 200, 256]) if tier == "quick" else rnd.choice([64, 100, 128, 256, 400, 512])
             for _ in range(50):
                 prm = draw_prm(rnd, algo)
                 cfg = {"algo": algo, "n": n, "T": n, "prm": prm}
